@@ -58,8 +58,10 @@ def spec_to_code(ctx, gutils, Grid, cfg):
             p0, q0a = pa.copy(), pts.copy()
             try:
                 try:
-                    gutils.points_inside_polygon(pts[:1], pa)
-                except (ValueError, TypeError):
+                    gutils.points_inside_polygon(pts, pa)
+                except (ValueError, TypeError) as e0:
+                    if "contiguous" not in str(e0) and "Buffer" not in str(e0):
+                        raise
                     # this storage layout is not accepted by the wrapper (Python exception): use plain arrays
                     pa, pts = np.ascontiguousarray(pa, dtype=float), np.ascontiguousarray(pts, dtype=float)
                     p0, q0a = pa.copy(), pts.copy()
